@@ -1,8 +1,10 @@
 #!/bin/bash
-# usage: tools/seed_recheck_all.sh [ids...]  - re-run, for every filed seed, the check of its own property against the patched tree
+# usage: tools/seed_recheck_all.sh [ids...]  - re-run, for every filed seed, the checks recorded as catching it (meta.json
+# caught_by; the check of its own property if that list is empty) against a scratch worktree with the patch applied
 cd "$(dirname "$0")/.."
 ids="$@"; [ -z "$ids" ] && ids=$(ls seeded | grep -E '^C[0-9]+-[A-Z]$')
 for id in $ids; do
   prop=${id%%-*}
-  python3 tools/seed_eval.py seeded/$id $id $prop --checks $prop --recheck 2>&1 | grep -E "^RECHECK|Traceback|Error" | cut -c1-400
+  checks=$(python3 -c "import json; m=json.load(open('seeded/$id/meta.json')); c=m.get('caught_by') or ['$prop']; print(','.join(c if '$prop' not in c else ['$prop']))")
+  python3 tools/seed_eval.py seeded/$id $id $prop --checks $checks --recheck 2>&1 | grep -E "^RECHECK|Traceback|Error" | cut -c1-400
 done
